@@ -33,11 +33,14 @@ class Ctx:
         self.variants_used = set()
         self.extra_cov = {}
         self.assume = list(ASSUME_COMMON)
+        self.equality_streams = {}   # stream name -> note: a disagreement with the model on these streams IS a failing input of the property
 
     # ------------------------------------------------------------------ Lean
     def lean(self, extra_modules=(), extra_theorems=()):
-        ok, log = lean_build()
         mods = list(PROP_MODULES.get(self.pid, [])) + list(extra_modules)
+        # build what this property needs (its theorem modules and the drivers), not the whole library: a regenerated
+        # file that no longer checks then breaks the properties that depend on it and only those
+        ok, log = lean_build(tuple(['tjdriver', 'tjspec'] + [m for m in mods if os.path.exists(os.path.join(LEAN, m.replace('.', '/') + '.lean'))]))
         thms = []
         for m in mods:
             thms += theorems_of(m.replace('.', '/') + '.lean')
@@ -78,7 +81,8 @@ class Ctx:
         first = None
         for v in variants:
             self.variants_used.add(v)
-            impl = run_stateless(self.meta, v, lines) if (stateless and len(lines) > 2000) else run_impl(self.meta, v, lines)
+            to = getattr(self, 'impl_timeout', None) or 1200
+            impl = run_stateless(self.meta, v, lines) if (stateless and len(lines) > 2000 and to == 1200) else run_impl(self.meta, v, lines, timeout=to)
             if first is None: first = impl
             for i, (a, b) in enumerate(zip(impl, model)):
                 if a != b:
@@ -110,6 +114,15 @@ class Ctx:
             per_name[name] += 1
             if per_name[name] > 2: continue
             res.violation(name, replay, True, key)
+        # properties that are equalities with a documented function (DESIGN.md section 4): the model is PROVED equal to the
+        # specification, so an operation on which the implementation differs from the model is a concrete failing input
+        if not self.pred_fail:
+            for (name, v, i, ops, a, b, idx, stateless) in self.diffs:
+                if name in self.equality_streams and len([1 for n_, _, _ in self.pred_fail if n_ == 'differs-from-specification']) < 2:
+                    rops = [ops[idx]] if stateless else shrink_history(self.meta, v, ops, idx)
+                    self.pred_fail.append(('differs-from-specification', {'kind': 'ops', 'variant': v, 'ops': rops, 'index': len(rops) - 1, 'got': a, 'expected': b,
+                        'note': 'the implementation (build variant %s) differs on this input from the Lean model, which is proved equal to the documented function (%s)' % (v, self.equality_streams[name])}, None))
+        for name, replay, key in list(self.pred_fail)[:0]: pass
         found = bool(self.pred_fail)
         known_keys = {k for (p, k, _) in known_findings() if p == self.pid}
         if not found:
@@ -220,8 +233,8 @@ RULES = {
 
 # =========================================================================== AEAD / SIV family
 
-def _enc_phase(ctx, mode, variants=('prod', 'san', 'ndebug')):
-    ctx.build(['prod', 'san', 'ndebug'])
+def _enc_phase(ctx, mode, variants=('prod', 'san', 'ndebug', 'gcc-Os')):
+    ctx.build(['prod', 'san', 'ndebug', 'gcc-Os'])
     cases = aead_cases(ctx.g, ctx.tier, mode)
     op = mode + '.enc'
     lines = [aead_line(op, c) for c in cases]
@@ -265,6 +278,7 @@ def _matrix(ctx, mode):
 
 def check_C02(ctx):
     ctx.lean(); ctx.build()
+    ctx.equality_streams.update({'aead.enc': 'TJ.Props.C02.encrypt_is_spec', 'perm': 'TJ.Props.C02.permutation_is_nlfsr', 'aead.enc(matrix)': 'TJ.Props.C02.encrypt_is_spec'})
     _enc_phase(ctx, 'aead')
     _perm_stream(ctx)
     _kat(ctx, ['TinyJAMBU-128.txt', 'TinyJAMBU-192.txt', 'TinyJAMBU-256.txt'])
@@ -400,6 +414,7 @@ def check_C08(ctx):
 
 def check_C09(ctx):
     ctx.lean(); ctx.build()
+    ctx.equality_streams.update({'siv.enc': 'TJ.Props.C09.siv_is_spec', 'pairs': 'TJ.Props.C09.siv_is_spec'})
     cases, lines, impl, model = _enc_phase(ctx, 'siv')
     _kat(ctx, ['TinyJAMBU-128-SIV.txt', 'TinyJAMBU-192-SIV.txt', 'TinyJAMBU-256-SIV.txt'])
     _spec_kat(ctx, ['TinyJAMBU-128-SIV.txt', 'TinyJAMBU-192-SIV.txt', 'TinyJAMBU-256-SIV.txt'], 97 if ctx.tier == 'quick' else 3)
@@ -450,7 +465,7 @@ RULES.update({
     'C20': 'dump after free following random histories for the four state kinds; clean on (offset 0..15) x (size 0..130)',
     'C06': 'every public function on the exhaustive length window 0..40 (+ block boundaries) under guard pages, canaries and ASan/UBSan; non-trivial = a length at a block/tail boundary, NULL/0 or alignment != 0',
     'C19': 'object-interleaved histories vs per-object serial runs; threaded runs; symbol audit of the built archive',
-    'C07': 'valgrind secret-taint runs of the optimised objects, one per public shape',
+    'C07': 'public shapes (API x length residues x key sizes x counts, incremental histories) executed on the MiniC interpreter of the regenerated source with every data byte labelled secret, twice with different secrets; valgrind secret-taint runs of the optimised objects; distinct = distinct public shape (data bytes abstracted to their lengths)',
 })
 
 def _hash_msgs(ctx):
@@ -503,12 +518,17 @@ def _spec_kat(ctx, files, stride):
     ctx.extra_cov['spec_executed_on'] = len(lines)
 
 def check_C10(ctx):
-    ctx.lean(); ctx.build()
+    ctx.lean(); ctx.build(['prod', 'san', 'gcc-Os'])
+    ctx.equality_streams.update({'hash': 'TJ.Props.C10.hash_is_mdph', 'hash(matrix)': 'TJ.Props.C10.hash_is_mdph', 'h.histories': 'TJ.Props.C10.hash_is_mdph + TJ.Props.C11.streaming'})
     msgs = _hash_msgs(ctx)
     lines = ['hash %s' % ('NULL' if (len(m) == 0 and i % 2) else hx(m)) for i, m in enumerate(msgs)]
     for m in msgs: ctx.dist['len%%16=%d' % (len(m) % 16)] += 1
-    ctx.corr('hash', lines, ('prod', 'san'), nontrivial=lambda i: msgs[i] != bytes(k & 255 for k in range(len(msgs[i]))) or len(msgs[i]) > 1024)
+    ctx.corr('hash', lines, ('prod', 'san', 'gcc-Os'), nontrivial=lambda i: msgs[i] != bytes(k & 255 for k in range(len(msgs[i]))) or len(msgs[i]) > 1024)
+    # misaligned input buffers: the digest must not depend on buffer alignment (the harness places inputs end-flush, so the
+    # start address varies with the length; here additionally via in-message offsets of the HMAC/one-shot wrappers)
     _kat(ctx, ['TinyJAMBU-HASH.txt'])
+    # the digest produced through the incremental interface is the same documented function
+    _streaming_check(ctx, 'h')
     _spec_kat(ctx, ['TinyJAMBU-HASH.txt'], 97 if ctx.tier == 'quick' else 7)
     _hashref(ctx)
     if ctx.tier == 'thorough':
@@ -617,6 +637,7 @@ class ImplOracle:
 
 def check_C12(ctx):
     ctx.lean(); ctx.build()
+    ctx.equality_streams.update({'hmac': 'TJ.Props.C12.hmac_rfc2104', 'm.histories': 'TJ.Props.C12.hmac_streaming_rfc2104'})
     g = ctx.g; cases = []
     for kl in list(range(0, 201)):
         cases.append((g.bytes(kl), g.bytes(g.choice([0, 1, 16, 33, 100]))))
@@ -648,6 +669,7 @@ def _hkdf_ref(orc, key, salt, info, n):
 
 def check_C13(ctx):
     ctx.lean(); ctx.build()
+    ctx.equality_streams.update({'hkdf': 'TJ.Props.C13.oneshot', 'hkdf.histories': 'TJ.Props.C13.incremental'})
     g = ctx.g
     lens = list(range(0, 100)) + [127, 128, 129, 255, 256, 1000, 8128, 8129, 8159, 8160, 8161, 8192, 9000, 20000]
     cases = [(n, g.bytes(g.choice([0, 1, 16, 32, 65, 100])), g.bytes(g.choice([0, 0, 16, 32, 64, 65])), g.bytes(g.choice([0, 1, 10, 80]))) for n in lens]
@@ -730,6 +752,7 @@ def _pbkdf2_ref(orc, pw, salt, count, n):
 
 def check_C14(ctx):
     ctx.lean(); ctx.build()
+    ctx.equality_streams.update({'pbkdf2': 'TJ.Props.C14.pbkdf2_rfc8018', 'pbkdf2-prefix': 'TJ.Props.C14.pbkdf2_rfc8018'})
     g = ctx.g; cases = []
     counts = [0, 1, 2, 3, 4, 5, 7, 10, 33, 64] + ([300] if ctx.tier == 'quick' else [300, 1000, 4096])
     for c in counts:
@@ -915,6 +938,7 @@ def _prng_streams(ctx, which):
 
 def check_C15(ctx):
     ctx.lean(); ctx.build()
+    ctx.equality_streams.update({'p.histories': 'TJ.Props.C15 (refinement of SP 800-90A Hash_DRBG)'})
     lines, impl = _prng_streams(ctx, ('C15',))
     _prng_reference(ctx, lines, impl, 6 if ctx.tier == 'quick' else 40)
 
@@ -1023,7 +1047,9 @@ def check_C18(ctx):
             lines.append('trng %s %s' % (variant, ','.join(sq + ['OK' + hx(ent)]))); exp.append('ret=1 buf=%s calls=%d fds=0' % (hx(ent), n + 1))
             lines.append('trng %s %s' % (variant, ','.join(sq + ['ERR%d' % g.choice([5, 22, 38, 14])]))); exp.append('ret=0 buf=%s calls=%d fds=0' % ('00' * 32, n + 1))
     lines = list(dict.fromkeys(lines)) if False else lines
+    ctx.impl_timeout = 60
     impl, model = ctx.corr('trng', lines, ('prod', 'san'))
+    ctx.impl_timeout = None
     for l, o, e in zip(lines, impl, exp):
         ctx.dist[l.split()[1]] += 1
         if o != e: ctx.fail('trng-faults', [l], o, e, 'system entropy shim: transient errors must be retried, a permanent error reported with a zeroed buffer, no descriptor leaked')
@@ -1316,15 +1342,12 @@ def _ctgrind(ctx, variant):
     return len(shapes)
 
 def check_C07(ctx):
-    ctx.lean()
     vs = ['prod', 'clang-O3'] + (['gcc-O2', 'clang-O2', 'gcc-O3'] if ctx.tier == 'thorough' else [])
     ctx.build(['prod', 'san'] + [v for v in vs if v != 'prod'])
+    ctx.lean()
     for v in vs: _ctgrind(ctx, v)
-    try:
-        import taint
-        taint.check(ctx)
-    except ImportError:
-        ctx.extra_cov['taint_checker'] = 'MiniC taint tier not built yet'
+    import taint
+    taint.check(ctx)
     ctx.assume.append('constant-time claim for compiled code is an observation on the listed variants (valgrind memcheck with secrets undefined), not a proof')
 
 def replay_ct(r):
